@@ -891,7 +891,7 @@ def param_match_predicate(ctx, rid):
     expect_term(ctx, rid, "param-match/result", fn["sp"], v, "return Ok(TypePath::from_parameter(%s@v1::Some.0))" % FIND, "the reference is rendered as that parameter")
 
 
-def id_opacity(ctx, rid, crates=("scale_typegen", "scale_typegen_description")):
+def id_opacity(ctx, rid, crates=("scale_typegen", "scale_typegen_description"), floors=True):
     """K9: type ids never reach ordering comparisons, arithmetic, tokens, or ordered iteration that reaches output"""
     P = ctx.P
     ID_RX = __import__("re").compile(r"(\.id\b|concrete_type_id|\.ty_id|type_id\b)")
@@ -971,7 +971,7 @@ def id_opacity(ctx, rid, crates=("scale_typegen", "scale_typegen_description")):
                         ctx.ok(rid, key, n["sp"], "for-loop in id order performs only commutative updates (%s)" % ", ".join(cm["updates"]))
                     else:
                         ctx.bad(rid, key, n["sp"], "for-loop over a set ordered by concrete type id with an order-dependent body")
-    ctx.count("iterations over id-ordered containers", n_it, 1)
+    ctx.count("iterations over id-ordered containers", n_it, 1 if floors else None)
 
 
 def definition_loop_locality(ctx, rid):
